@@ -397,9 +397,11 @@ def spans_of(word, sp, Tb, summ):
 
 
 def replay(d):
-    if d['input'].get('claim') in ('lexical', 'lexical_set'):
+    if d['input'].get('claim') in ('lexical', 'lexical_set', 'contextual'):
         from . import c03lex
         boot.load_plain()
+        if d['input']['claim'] == 'contextual':
+            return c03lex.replay_g(d)
         return c03lex.replay(d) if d['input']['claim'] == 'lexical' else c03lex.replay_set(d)
     p, Tb, G, summ, sp, ref = build()
     _ENGINE['p'] = p
@@ -561,6 +563,26 @@ def main():
     lex_st = c03lex.run_leg(run)
     tot_q += lex_st['queries']
     tot_solve += lex_st['solver_s']
+    # leg G: the contextual tokens get / set (replay level: every ID position of the accepted strings and the production corpus)
+    gwords = [w for w in gx.enumerate_accepted(Tb, G, 4) if 'AUTOSEMI' not in w and 'ID' in w]
+    short = {t: (t,) for t in G.terms}
+    ch = True
+    while ch:
+        ch = False
+        for l, r in G.prods:
+            if all(x in short for x in r):
+                wv = tuple(y for x in r for y in short[x])
+                if l not in short or len(wv) < len(short[l]):
+                    short[l] = wv
+                    ch = True
+    for l, r in G.prods:
+        if l in ctx and ('GETPROP' in r or 'SETPROP' in r):
+            u, v = ctx[l]
+            w = tuple(u) + tuple(y for x in r for y in short[x]) + tuple(v)
+            w = tuple('SEMI' if t == 'AUTOSEMI' else t for t in w)
+            if gx.lr_run(Tb, list(w)) is not None:
+                gwords.append(w)
+    c03lex.run_leg_g(run, Tb, G, sp, ref, gwords, ref_accepts)
     run.leg('per_nonterminal', **{k: (v if not isinstance(v, list) else v[:10]) for k, v in nt_stats.items()})
     # validation of LR-SAT against the real engine on the enumerated accepted strings (prediction == engine)
     val = _validate(Tb, G, summ, sp, ref, 3 if not th else 4)
